@@ -328,4 +328,25 @@ theorem acquire_holders {t : Tid} {s s' : Sem} (h : s.acquire t = some s') : s'.
 
 end Sem
 
+/-! ### Timer -/
+
+namespace Timer
+
+theorem fire_eq_some {t t' : Timer} : t.fire = some t' ↔ t = .armed ∧ t' = .fired := by
+  cases t <;> simp [fire, eq_comm]
+
+theorem start_eq_some {t t' : Timer} : t.start = some t' ↔ t = .idle ∧ t' = .armed := by
+  cases t <;> simp [start, eq_comm]
+
+/-- a cancelled timer never fires (and cancelling a fired one does not un-fire it) -/
+theorem fire_cancel (t : Timer) : (t.cancel).fire = none := by cases t <;> rfl
+
+theorem cancel_fired : Timer.fired.cancel = .fired := rfl
+
+/-- a timer fires at most once -/
+theorem fire_fire {t t' : Timer} (h : t.fire = some t') : t'.fire = none := by
+  obtain ⟨_, rfl⟩ := fire_eq_some.1 h; rfl
+
+end Timer
+
 end VgiVerif.Sched
